@@ -1,5 +1,6 @@
 """C20 — spreadsheet inputs convert to the network and services they describe (CrossHair above the cell layer)."""
 from harness import c18
+from harness.common import is_symbolic, eq
 
 META = dict(
     level='model_checking',
@@ -58,6 +59,122 @@ def h_cable_ids(ctx, t_mid):
               info=dict(cables=(ce0, cw0, ce1, cw1), mid=c20_ch.TYPES[t_mid], west_distance=w0))
 
 
+LINK_ATTRS = {
+    # attribute: (default, east options, west options, key of the fibre params / element)   ('' = empty cell, None = no column)
+    'distance': (80, [None, 50], [None, '', 70]),
+    'lineic': (0.2, [None, 0.22], [None, '', 0.25]),
+    'con_in': (None, [None, 0.5, 0], [None, '', 0, 0.3]),
+    'con_out': (None, [None, 0.4, 0], [None, '', 0, 0.6]),
+    'fiber': ('SSMF', [None, 'NZDF'], [None, '', 'LEAF']),
+    'pmd': (None, [None, 0.04], [None, '', 0.08]),
+    'cable': ('', [None, 'c1'], [None, '', 'c2']),
+}
+
+
+SYM_RANGE = {'lineic': (0, 1), 'con_in': (0, 3), 'con_out': (0, 3)}      # cells given as symbolic reals (0 included)
+
+
+def _same(a, b):
+    if is_symbolic(a) or is_symbolic(b):
+        return a is b or (a is not None and b is not None and bool(eq(a, b)))
+    return a == b
+
+
+def h_link_attributes(ctx):
+    """one Links row A-B: every per-direction attribute given / empty / absent / zero on each side (value-forked): the A->B fibre
+    carries the east value (or the documented default), the B->A fibre the west value when the west cell is filled in - zero
+    included - and the east one otherwise"""
+    from math import sqrt
+    from harness import c20_ch
+    attr = ctx.choice('attribute', list(LINK_ATTRS))
+    default, east_opts, west_opts = LINK_ATTRS[attr]
+    e = ctx.choice('east cell', east_opts + (['symbolic'] if attr in SYM_RANGE else []))
+    w = ctx.choice('west cell', west_opts + (['symbolic'] if attr in SYM_RANGE else []))
+    if e == 'symbolic':
+        e = ctx.real(f'east_{attr}', lo=SYM_RANGE[attr][0], hi=SYM_RANGE[attr][1])
+    if w == 'symbolic':
+        w = ctx.real(f'west_{attr}', lo=SYM_RANGE[attr][0], hi=SYM_RANGE[attr][1])
+    row = {'from_city': 'A', 'to_city': 'B'}
+    if e is not None:
+        row[f'east_{attr}'] = e
+    if w is not None:
+        row[f'west_{attr}'] = w
+    nodes = [{'city': 'A', 'node_type': 'ROADM'}, {'city': 'B', 'node_type': 'ROADM'}]
+    data, err = c20_ch._convert({'Nodes': nodes, 'Links': [row]})
+    info = dict(attribute=attr, east_cell=str(e), west_cell=str(w))
+    ctx.prove('workbook converts', err is None, info=dict(info, error=repr(err)))
+    if err is not None:
+        return
+    want_e = e if (is_symbolic(e) or e not in (None, '')) else default
+    want_w = w if (is_symbolic(w) or w not in (None, '')) else want_e
+    fib = {x['uid']: x for x in data['elements'] if x['type'] == 'Fiber'}
+    ce, cw = (want_e, want_w) if attr == 'cable' else ('', '')
+    east, west = fib.get(f'fiber (A → B)-{ce}'), fib.get(f'fiber (B → A)-{cw}')
+    ctx.prove('one fibre per direction, named after its own cable', east is not None and west is not None and len(fib) == 2,
+              info=dict(info, fibres=sorted(fib)))
+    if east is None or west is None:
+        return
+
+    def got(f):
+        if attr == 'distance':
+            return f['params']['length']
+        if attr == 'lineic':
+            return f['params']['loss_coef']
+        if attr in ('con_in', 'con_out'):
+            return f['params'][attr]
+        if attr == 'fiber':
+            return f['type_variety']
+        if attr == 'pmd':
+            return f['params'].get('pmd_coef')
+        return f['uid'].rsplit('-', 1)[1]
+
+    def want(v):
+        if attr == 'pmd':
+            return v * 1e-12 / sqrt(80e3) if v else None
+        return v
+    ctx.prove('A->B fibre carries the east value or the default', _same(got(east), want(want_e)), info=dict(info, got=str(got(east)), want=str(want(want_e))))
+    ctx.prove('B->A fibre carries the west value when filled in (zero included), else the east one', _same(got(west), want(want_w)),
+              info=dict(info, got=str(got(west)), want=str(want(want_w))))
+
+
+def h_eqpt_attributes(ctx):
+    """one Eqpt row for the in-line site M of A-M-B: east cells all filled in, every west cell filled in (zero included) or
+    absent: each value lands in the operational field of the amplifier of its own direction; absent west cells give the
+    documented defaults, never the east values"""
+    from harness import c20_ch
+    east = {'amp_type': 'std_medium_gain', 'amp_gain': 20, 'amp_dp': 1, 'tilt_vs_wavelength': 0.5, 'att_out': 2, 'att_in': 0.3}
+    west_opts = {'amp_type': [None, '', 'std_low_gain'], 'amp_gain': [None, 15, 0], 'amp_dp': [None, -1, 0],
+                 'tilt_vs_wavelength': [None, -0.5], 'att_out': [None, 1, 0], 'att_in': [None, 0.7]}
+    defaults = {'amp_type': '', 'amp_gain': None, 'amp_dp': None, 'tilt_vs_wavelength': None, 'att_out': None, 'att_in': 0}
+    row = {'from_city': 'M', 'to_city': 'B'}
+    row.update({f'east_{k}': v for k, v in east.items()})
+    west = {}
+    for k, opts in west_opts.items():
+        v = ctx.choice(f'west_{k}', opts)
+        west[k] = v
+        if v is not None:
+            row[f'west_{k}'] = v
+    nodes = [{'city': 'A', 'node_type': 'ROADM'}, {'city': 'M', 'node_type': 'ILA'}, {'city': 'B', 'node_type': 'ROADM'}]
+    links = [{'from_city': 'A', 'to_city': 'M', 'east_distance': 50}, {'from_city': 'M', 'to_city': 'B', 'east_distance': 60}]
+    data, err = c20_ch._convert({'Nodes': nodes, 'Links': links, 'Eqpt': [row]})
+    info = dict(west_cells=west)
+    ctx.prove('workbook converts', err is None, info=dict(info, error=repr(err)))
+    if err is not None:
+        return
+    el = {e['uid']: e for e in data['elements']}
+    me, mw = el.get('east edfa in M to B'), el.get('west edfa in M to B')
+    ctx.prove('both amplifiers of the in-line site exist', me is not None and mw is not None, info=info)
+    if me is None or mw is None:
+        return
+    field = {'amp_gain': 'gain_target', 'amp_dp': 'delta_p', 'tilt_vs_wavelength': 'tilt_target', 'att_out': 'out_voa', 'att_in': 'in_voa'}
+    ctx.prove('east amplifier: model and settings of the east cells', me.get('type_variety') == east['amp_type'] and
+              all(me['operational'][f] == east[k] for k, f in field.items()), info=dict(info, got=me.get('operational')))
+    wv = {k: (west[k] if west[k] not in (None, '') else defaults[k]) for k in west}
+    ctx.prove('west amplifier: model of the west cell (none when empty)', mw.get('type_variety', '') == wv['amp_type'], info=dict(info, got=mw.get('type_variety')))
+    ctx.prove('west amplifier: settings of the west cells (zero included), defaults when absent - never the east values',
+              all(mw['operational'][f] == wv[k] for k, f in field.items()), info=dict(info, got=mw.get('operational'), want=wv))
+
+
 def setup():
     import logging
     logging.disable(logging.CRITICAL)
@@ -69,5 +186,7 @@ def jobs(tier):
                   witness_every=25, budget_s=200, cost=50) for st in (False, True)]
     extra += [dict(name=f'H20:cable_ids:mid={t}', kind='symx', fn='h_cable_ids', params=dict(t_mid=i), witness_every=20, budget_s=200, cost=30)
               for i, t in enumerate(('ROADM', 'ILA', 'FUSED'))]
+    extra += [dict(name='H20:link_attributes_per_direction', kind='symx', fn='h_link_attributes', witness_every=10, budget_s=200, cost=30),
+              dict(name='H20:eqpt_attributes_per_direction', kind='symx', fn='h_eqpt_attributes', witness_every=20, budget_s=200, cost=40)]
     return extra + [dict(name=f'CH20:{f}', kind='crosshair', fn='run_crosshair', target=f, ch_module='harness.c20_ch', per_condition_timeout=tmo,
                  per_path_timeout=10, budget_s=tmo * 3 + 120, cost=tmo) for f in FUNCS]
